@@ -60,6 +60,9 @@ SCENARIOS = [
     ("on,start,trig,get,trig,get,stop", "-"),
     ("on,start,trig,stop", "trig,get,get"),
     ("start,stop", "get,stop,get"),
+    ("on,start,trig,stop,start,stop", "get,get,get,get"),
+    ("on,off,on,start,stop", "get,get,get,get"),
+    ("on,start,stop,start,get,stop", "-"),     # on the repaired code the frame call waits for ever (NOTE, not a violation)
 ]
 
 
@@ -327,6 +330,18 @@ def random_script(rng, nmax):
     return ",".join(a), (",".join(b) if b else "-")
 
 
+def directed_from_diff(p):
+    """scripts derived from a point of disagreement: the history up to each start, followed by a frame
+    call (is a frame handed out that the property forbids?) and the closing stop"""
+    a = p["a"].split(",") if p["a"] != "-" else []
+    out = []
+    for i, op in enumerate(a):
+        if op == "start":
+            out.append((",".join(a[:i + 1] + ["get", "stop"]), "-"))
+            out.append((",".join(a[:i + 1] + ["stop"]), "get,get,get,get"))
+    return out
+
+
 # ------------------------------------------------------------------ shrink
 def find_violation(exe, drv, a, b, bound, budget, kind):
     st = Stats()
@@ -399,6 +414,7 @@ def run(ctx):
         a, b = random_script(ctx.rng, 11 if thorough else 8)
         scen.append((a, b, budget // 2))
     all_exhaustive = True
+    directed = []
     # corpus first: the recorded schedule, then the scenario's enumeration
     for a, b, sched in corpus_cases():
         runs = run_impl(exe, [case_line("corpus", a, b, sched, dfs=False)])
@@ -423,11 +439,22 @@ def run(ctx):
                               {"harness": "h_simcam_conc", "case": case_line("replay", p["a"], p["b"], p["sched"], dfs=False)})
             elif p["kind"] == "diff" and not seen_diff:
                 seen_diff = True
+                directed.extend(directed_from_diff(p))
                 ctx.corr_broken.append({"what": "simulated.camera.c on detsched and the Lean model disagree",
                                         "case": case_line("replay", p["a"], p["b"], p["sched"], dfs=False),
                                         "line": p["line"], "impl": p["impl"], "model": p["model"]})
             elif p["kind"] == "model-crash":
                 ctx.corr_broken.append({"what": "model driver failed", "detail": p["detail"]})
+    # directed search: the model and the code disagreed and the oracle has not failed yet
+    tried = set()
+    for a, b in directed:
+        if ctx.violations or (a, b) in tried or len(tried) > 12:
+            break
+        tried.add((a, b))
+        problems, _, _ = explore_scenario(ctx, exe, drv, a, b, bound, 600, stats)
+        for p in problems:
+            if p["kind"] == "oracle":
+                report(ctx, exe, drv, p, bound)
     ctx.cov["evaluations"] = stats.runs
     ctx.cov["distinct_nontrivial"] = len(stats.distinct)
     ctx.cov["traces_validated_against_impl"] = stats.validated
